@@ -40,7 +40,10 @@ static void check_pair(const Tables& t, const std::vector<double>& a, const std:
   std::vector<double> ic, ac; double tr;
   refops(t, sparse(a), sparse(b), ic, ac, tr);
   SU_vector va = mkvec(d, a), vb = mkvec(d, b);
-  double scale = maxabs(a) * maxabs(b), tol = 64 * d * ref::EPS * scale;
+  // rounding proportional to |A||B|, plus the underflow term: a kernel may scale one operand's components by its constants before
+  // multiplying by the other operand, and on subnormal components that step has an absolute error of one subnormal ulp
+  const double TRUE_MIN = 4.9406564584124654e-324;
+  double scale = maxabs(a) * maxabs(b), uf = 64.0 * d * d * TRUE_MIN * std::max(maxabs(a), maxabs(b)), tol = 64 * d * ref::EPS * scale + uf;
   auto cmp = [&](const char* op, const SU_vector& r, const std::vector<double>& want) {
     std::vector<double> got = comps(r);
     double e = maxdiff(got, want);
@@ -54,7 +57,7 @@ static void check_pair(const Tables& t, const std::vector<double>& a, const std:
     SU_vector q(ACommutator(va, va)); double e2 = maxdiff(comps(q), ac); if (!(e2 <= tol)) violation("ACommutator(a,a):mismatch:d=" + std::to_string(d), J().i("d", d).arr("a", a).done());
     double t2 = va * va; if (!(std::fabs(t2 - tr) <= 64 * d * d * ref::EPS * scale)) violation("operator*(a,a):trace-mismatch:d=" + std::to_string(d), J().i("d", d).arr("a", a).num("got", t2).num("want", tr).done()); }
   double got = va * vb;
-  double ttol = 64 * d * d * ref::EPS * scale;
+  double ttol = 64 * d * d * ref::EPS * scale + uf;
   if (scale > 0) maxstat("trace_err/tol", std::fabs(got - tr) / ttol);
   if (!(std::fabs(got - tr) <= ttol)) violation(std::string("operator*:trace-mismatch:d=") + std::to_string(d) + ":" + cls, J().i("d", d).arr("a", a).arr("b", b).num("got", got).num("want", tr).done());
   if (all_entry_points) {
@@ -74,6 +77,11 @@ static void check_pair(const Tables& t, const std::vector<double>& a, const std:
       { std::vector<double> g = comps(B2); double e = maxdiff(g, w2); if (!(e <= tol + 4 * ref::EPS * maxabs(b))) violation("B-=guarantee<EqualSizes>(ACommutator(A,B)):mismatch:d=" + std::to_string(d), J().i("d", d).arr("a", a).arr("b", b).arr("got", g).arr("want", w2).done()); }
       SU_vector C1 = mkvec(d, probe(d, 0)); C1 = guarantee<NoAlias | EqualSizes>(iCommutator(va, vb)); cmp("C=guarantee<NoAlias|EqualSizes>(iCommutator(A,B))", C1, ic);
       SU_vector C2 = mkvec(d, probe(d, 0)); C2 = guarantee<NoAlias | EqualSizes>(ACommutator(va, vb)); cmp("C=guarantee<NoAlias|EqualSizes>(ACommutator(A,B))", C2, ac);
+    }
+    { // an operand is a second object viewing the storage the destination owns
+      SU_vector T1 = va; SU_vector v1((unsigned)d, &T1[0]); T1 = iCommutator(v1, vb); cmp("owner=iCommutator(view_of_owner,B)", T1, ic);
+      SU_vector T2 = vb; SU_vector v2((unsigned)d, &T2[0]); T2 = ACommutator(va, v2); cmp("owner=ACommutator(A,view_of_owner)", T2, ac);
+      SU_vector T3 = va; SU_vector v3((unsigned)d, &T3[0]); v3 = iCommutator(T3, vb); cmp("view_of_owner=iCommutator(owner,B)", T3, ic);
     }
     double t0 = SUTrace<0>(va, vb);
     if (!ref::biteq(t0, got) && !(std::fabs(t0 - got) <= ttol)) violation("SUTrace<0>:differs-from-operator*", J().i("d", d).arr("a", a).arr("b", b).done());
